@@ -29,12 +29,18 @@ func init() {
 				"all members or panics. R7: the constructor used for a recognised device is built from that profile's blocking mode " +
 				"and filtered-response TTL. R8: every rule-list engine (shared lists, blocked services, safe search) has a result cache of its own, so a cached verdict of one source is never returned for another.",
 			NotCovered: "what the urlfilter engine matches and the allow/block priority inside GetDNSBasicRule (library); equality of verdicts over all rule-list contents.",
-			Rules: map[string]string{"C02-R1": "request-filter order", "C02-R2": "FilterRequest precedence", "C02-R11": "mainmw.filterRequest / filterResponse: the filter is asked about this request and this upstream answer; a CNAME rewrite makes the rewritten question go upstream and restores ID, question and a leading CNAME on the way back instead of response filtering", "C02-R10": "in-place refreshable lists (safe search): engine swap and cache clear in one write-locked section, queries under the lock (shared with C12-R1/R2)", "C02-R3": "rule-list consultation order and rewrite priority",
+			Rules: map[string]string{"C02-R1": "request-filter order", "C02-R2": "FilterRequest precedence", "C02-R13": "blocking-mode fields (custom IPv4 / IPv6 answers) are converted name-to-name by the backend and file-cache codecs", "C02-R11": "mainmw.filterRequest / filterResponse: the filter is asked about this request and this upstream answer; a CNAME rewrite makes the rewritten question go upstream and restores ID, question and a leading CNAME on the way back instead of response filtering", "C02-R10": "in-place refreshable lists (safe search): engine swap and cache clear in one write-locked section, queries under the lock (shared with C12-R1/R2)", "C02-R3": "rule-list consultation order and rewrite priority",
 				"C02-R4": "network rules before hosts rules", "C02-R5": "filter selection", "C02-R6": "response shaping and exhaustiveness", "C02-R7": "profile constructor provenance", "C02-R8": "one result cache per rule-list engine"},
 		}})
 }
 
 func runC02(c *an.Ctx) {
+	// ---- R13: the blocking mode's addresses survive the backend and file-cache conversions under their own family
+	c.Floor("C02-R13", 4)
+	c14CodecNames(c, "C02-R13", func(dst, src string) bool {
+		n := normName(dst) + " " + normName(src)
+		return strings.Contains(n, "ipv4") || strings.Contains(n, "ipv6") || strings.Contains(n, "blocking")
+	}, 4)
 	// ---- R12: a profile's custom rules are compiled anew when the profile was updated
 	c.Floor("C02-R12", 1)
 	c.Borrow("C02-R12", runC12, func(o an.Obligation) bool { return o.Rule == "C12-R5" })
